@@ -112,10 +112,14 @@ impl DhtHandler {
                 // `unwrap` is OK because we checked the timer is non-empty, so it should never
                 // return `None`.
                 let token = token.unwrap();
+                #[cfg(btdht_verif)]
+                crate::verif_log::record(format!("EV_TIMER {:?} pending={}", token, self.timer.verif_pending()));
                 self.handle_timeout(token).await
             }
             command = self.command_rx.recv() => {
                 if let Some(command) = command {
+                    #[cfg(btdht_verif)]
+                    crate::verif_log::record(format!("EV_CMD {}", command.verif_name()));
                     self.handle_command(command).await
                 } else {
                     self.shutdown()
@@ -123,6 +127,8 @@ impl DhtHandler {
             }
             result = self.bootstrap.state_rx.changed() => {
                 assert!(result.is_ok());
+                #[cfg(btdht_verif)]
+                crate::verif_log::record(format!("EV_BOOT {:?}", *self.bootstrap.state_rx.borrow()));
                 if self.is_bootstrapped() {
                     self.handle_bootstrap_success().await;
                 }
@@ -178,6 +184,8 @@ impl DhtHandler {
         message: Message,
         addr: SocketAddr,
     ) -> Result<(), WorkerError> {
+        #[cfg(btdht_verif)]
+        crate::verif_log::record(format!("EV_MSG {addr}"));
         // Do not process requests if we are read only
         // TODO: Add read only flags to messages we send it we are read only!
         // Also, check for read only flags on responses we get before adding nodes
@@ -423,6 +431,11 @@ impl DhtHandler {
         // Start the lookup right now if not bootstrapping
         let mid_generator = self.aid_generator.generate();
         let action_id = mid_generator.action_id();
+        #[cfg(btdht_verif)]
+        crate::verif_log::record(format!(
+            "LOOKUP_START {:?} target={:?} announce={}",
+            action_id, lookup.info_hash, lookup.announce
+        ));
 
         let mut lookup = TableLookup::new(
             lookup.info_hash,
@@ -501,6 +514,8 @@ impl DhtHandler {
     }
 
     fn shutdown(&mut self) {
+        #[cfg(btdht_verif)]
+        crate::verif_log::record("EV_SHUTDOWN".to_string());
         self.running = false;
     }
 
